@@ -56,8 +56,8 @@ def selftest(ctx):
                 e["val"]["aff"] = ""
                 return evs
 
-    return pipeline.corruption_selftest(ctx, P, [("one_phase", one_phase), ("foreign_block", foreign_block),
-                                                 ("confirm_wrong", confirm_wrong), ("release_nonempty", release_nonempty)], n_random=6)
+    return pipeline.corruption_selftest(ctx, P, _ipam.fresh([("one_phase", one_phase), ("foreign_block", foreign_block),
+                                                 ("confirm_wrong", confirm_wrong), ("release_nonempty", release_nonempty)]), n_random=6)
 
 
 MANIFEST = dict(
